@@ -726,7 +726,7 @@ def npoints(inputs):
     return r
 
 
-def real_points(inputs, k, salt=0):
+def real_points(inputs, k, salt=0, nonneg=False):
     """k deterministic sample points for the real inputs (grid values, no RNG state)."""
     names = sorted(n for n, d in inputs.items() if d[0] == "real")
     if not names:
@@ -738,7 +738,7 @@ def real_points(inputs, k, salt=0):
             shape = inputs[n][1]
             size = int(np.prod(shape)) if shape else 1
             h = sum(ord(c) for c in n) * 7 + j * 13 + salt
-            sign = -1.0 if (j % 3 == 2) else 1.0  # every third point has negative coordinates
+            sign = -1.0 if (j % 3 == 2 and not nonneg) else 1.0  # every third point has negative coordinates
             vals = [sign * 0.25 * (1 + ((h + 3 * i * i + 5 * i) % 8)) for i in range(size)]
             pt[n] = np.asarray(vals, dtype=float).reshape(shape)
         pts.append(pt)
